@@ -102,6 +102,46 @@ pub fn strip_comments(src: &str) -> String {
 
 /// Preprocessor::parse with a fresh context, converted as driver.rs does.
 /// Err carries the lalrpop error rendered with Display.  Panics are caught.
+/// One recorded forward reference (position of the jump, label name), whatever container and field order the working
+/// tree keeps them in: a set or list of `(usize, String)` / `(String, usize)`, or a map either way round.
+pub trait UndefEntry {
+    fn pair(&self) -> (usize, String);
+}
+impl UndefEntry for &(usize, String) {
+    fn pair(&self) -> (usize, String) {
+        (self.0, self.1.clone())
+    }
+}
+impl UndefEntry for &(String, usize) {
+    fn pair(&self) -> (usize, String) {
+        (self.1, self.0.clone())
+    }
+}
+impl UndefEntry for (&usize, &String) {
+    fn pair(&self) -> (usize, String) {
+        (*self.0, self.1.clone())
+    }
+}
+impl UndefEntry for (&String, &usize) {
+    fn pair(&self) -> (usize, String) {
+        (*self.1, self.0.clone())
+    }
+}
+impl UndefEntry for (&usize, &Vec<String>) {
+    fn pair(&self) -> (usize, String) {
+        (*self.0, self.1.join(","))
+    }
+}
+/// the recorded forward references as a sorted list
+pub fn undef_pairs<I: IntoIterator>(it: I) -> Vec<(usize, String)>
+where
+    I::Item: UndefEntry,
+{
+    let mut v: Vec<(usize, String)> = it.into_iter().map(|e| e.pair()).collect();
+    v.sort();
+    v
+}
+
 pub fn assemble(src: &str) -> Result<Assembled, String> {
     let mut ctx = PreprocessorContext::default();
     let mut out = PreprocessorOutput::default();
@@ -112,8 +152,7 @@ pub fn assemble(src: &str) -> Result<Assembled, String> {
         Ok(Ok(())) => {
             // `..`: fields a working tree may have added are of no concern here (the harness builds either way)
             let PreprocessorContext { data_counter, label_map, mapper, fn_map, undefined_labels, .. } = ctx;
-            let mut undefined: Vec<(usize, String)> = undefined_labels.iter().map(|(a, b)| (*a, b.clone())).collect();
-            undefined.sort();
+            let undefined: Vec<(usize, String)> = undef_pairs(undefined_labels.iter());
             Ok(Assembled {
                 code: out.code,
                 data: out.data,
